@@ -12,7 +12,7 @@ use std::{cmp::Ordering, fmt};
 /// Signed wrapper of Uint128
 /// very minimalist only has bare minimum functions for
 /// basic signed arithmetic
-#[derive(Clone, Copy, Debug, PartialEq, Eq, JsonSchema)]
+#[derive(Clone, Copy, Debug, Eq, JsonSchema)]
 pub struct Integer {
     pub value: Uint128,
     pub negative: bool,
@@ -75,12 +75,13 @@ impl Integer {
 
     #[allow(missing_docs)]
     pub fn is_negative(&self) -> bool {
-        self.negative
+        // zero has two encodings; neither of them is negative
+        self.negative && !self.value.is_zero()
     }
 
     #[allow(missing_docs)]
     pub fn is_positive(&self) -> bool {
-        !self.negative
+        !self.is_negative()
     }
 
     #[allow(missing_docs)]
@@ -243,6 +244,13 @@ impl Integer {
             (true, true) | (false, false) => Ok(Self::new_positive(abs_value)),
             (false, true) | (true, false) => Ok(Self::new_negative(abs_value)),
         }
+    }
+}
+
+// Equality is on the mathematical value: both encodings of zero are equal
+impl PartialEq for Integer {
+    fn eq(&self, other: &Self) -> bool {
+        self.value == other.value && (self.value.is_zero() || self.negative == other.negative)
     }
 }
 
